@@ -36,6 +36,22 @@ func variants() []Variant {
 		Quick:    6, Thorough: 7,
 	})
 
+	// a token that came with the genesis and names no owner: every owner-only message on it, by anybody, must fail
+	vs = append(vs, Variant{
+		Name:         "ownerless-genesis-token",
+		Issues:       []IssueSpec{{"tka", "uta", 0, 2, 3, true}},
+		IssueBy:      []string{"A"},
+		EditNothing:  true,
+		EditMax:      []uint64{3},
+		EditMintable: true,
+		EditName:     true,
+		Mints:        []MintSpec{{"1", "self"}, {"1", "other"}},
+		Burns:        []string{"1"},
+		Transfer:     true,
+		Ownerless:    true,
+		Quick:        5, Thorough: 6,
+	})
+
 	// cap: one symbol with two parameterisations (exact duplicates of the identity, different supplies) plus a
 	// second token, the full edit / mint / burn / handover alphabet by owner and stranger, per scale.
 	for _, sc := range []uint32{0, 1, 18} {
